@@ -11,7 +11,7 @@ Ltac crush_step H :=
   try (injection H as <-).
 
 Ltac open_step H :=
-  unfold step, step_core, stop_done, fail_boot, boot_ok, reload_finish, transition, transition_or_error in H.
+  unfold step, step_core, stop_done, finish_stop, fail_boot, boot_ok, reload_finish, transition, transition_or_error in H.
 
 (* ------------------------------------------------------------------ crash freedom (C19) *)
 
@@ -124,6 +124,15 @@ Proof.
   injection H as <-. split; [reflexivity|repeat split].
 Qed.
 
+Lemma errold_enters_pre sl validated mux_ok s i s' :
+  kpc s = KFetch -> holder s = Some (ByReload i) ->
+  step sl validated mux_ok s (LFetch CbErrOld) = Some s' ->
+  kpc s' = KUnchanged /\ servers_untouched s s'.
+Proof.
+  intros Ek Eh H. open_step H. rewrite Ek, Eh in H. destruct (crashed s); [discriminate|].
+  injection H as <-. split; [reflexivity|repeat split].
+Qed.
+
 Lemma changed_takes_new sl validated mux_ok s i c s' :
   kpc s = KFetch -> holder s = Some (ByReload i) ->
   go_config_equal c (cur s) = false ->
@@ -132,6 +141,14 @@ Lemma changed_takes_new sl validated mux_ok s i c s' :
 Proof.
   intros Ek Eh Ee H. open_step H. rewrite Ek, Eh, Ee in H. destruct (crashed s); [discriminate|].
   injection H as <-. split; reflexivity.
+Qed.
+
+(* the continuations of the mutex-protected sections are total for a holder *)
+Lemma stop_done_some sl s r v o : holder s <> None -> stop_done sl (with_server s v o) r <> None.
+Proof.
+  unfold stop_done. cbn [holder with_server]. destruct (holder s) as [[|i]|]; [| |contradiction]; intros _.
+  - destruct sl; discriminate.
+  - destruct r; discriminate.
 Qed.
 
 Section Protocol.
@@ -314,16 +331,11 @@ Section Protocol.
     - destruct (Hrel KUnchanged eq_refl) as [i Eh]; auto. exists LUnchanged. rewrite ?Ek. unfold reload_finish. rewrite ?Eh.
       split; [reflexivity|discriminate].
     - destruct (once_done s) eqn:Eo.
-      + exists LStopSkip. rewrite ?Ek, ?Eo. unfold stop_done. cbn [holder with_server].
-        destruct (holder s) as [[|i]|]; [| |contradiction]; split; try reflexivity;
-          [destruct (fsm_allowed _ _)|]; discriminate.
+      + exists LStopSkip. rewrite ?Ek, ?Eo. split; [reflexivity|]. now apply stop_done_some.
       + destruct (server s) as [sid|] eqn:Es.
         * exists (LStopCallS sid). rewrite ?Ek, ?Es, ?Eo, ?Nat.eqb_refl. split; [reflexivity|discriminate].
-        * exists LStopSkip. rewrite ?Ek, ?Eo, ?Es. unfold stop_done. cbn [holder with_server].
-          destruct (holder s) as [[|i]|]; [| |contradiction]; split; try reflexivity; discriminate.
-    - exists (LShutdownRet sid SOk). rewrite ?Ek, ?Nat.eqb_refl. unfold stop_done. cbn [holder with_server].
-      destruct (holder s) as [[|i]|]; [| |contradiction]; split; try reflexivity;
-        [destruct (fsm_allowed _ _)|]; discriminate.
+        * exists LStopSkip. rewrite ?Ek, ?Eo, ?Es. split; [reflexivity|]. now apply stop_done_some.
+    - exists (LShutdownRet sid STimeout). cbn [sres_allowed]. rewrite ?Ek, ?Nat.eqb_refl. split; [reflexivity|]. now apply stop_done_some.
     - destruct (new_config_ok validated mux_ok (routes (cur s))) eqn:En.
       + destruct (mux_ok (map rpath (routes (cur s)))) eqn:Em.
         * exists (LBootCreate (length (servers s)) (cur s)). rewrite ?Ek, ?En, ?Em, ?Nat.eqb_refl, ?config_eqb_refl.
@@ -349,7 +361,7 @@ Section Protocol.
     - destruct (i_probe _ _ _ I sid) as (sv & Hn & Hsh); [auto|].
       destruct (i_live _ _ _ I sid) as [Es Eo]; [exists sv; auto|].
       exists (LCleanupCall sid). rewrite ?Ek, ?Es, ?Eo, !Nat.eqb_refl. split; [reflexivity|discriminate].
-    - exists (LShutdownRet sid SOk). rewrite ?Ek, ?Nat.eqb_refl. unfold fail_boot. cbn [holder with_server].
+    - exists (LShutdownRet sid STimeout). cbn [sres_allowed]. rewrite ?Ek, ?Nat.eqb_refl. unfold fail_boot. cbn [holder with_server].
       destruct (holder s) as [[|i]|]; [| |contradiction]; split; try reflexivity; discriminate.
     - destruct (Hrel KFinish eq_refl) as [i Eh]; auto. exists LFinish. rewrite ?Ek. unfold reload_finish. rewrite ?Eh.
       split; [reflexivity|discriminate].
@@ -374,6 +386,7 @@ Section Protocol.
       + apply crit_progress; auto. congruence.
       + exists LRunLockStop. unfold HttpServer.step, step_core. rewrite Hc, Er, Eh. split; [reflexivity|discriminate].
     - apply crit_progress; auto. rewrite (i_rpc _ _ _ I); [discriminate|auto].
+    - exists LRunFinishStop. unfold HttpServer.step, step_core. rewrite Hc, Er. split; [reflexivity|discriminate].
   Qed.
 End Protocol.
 
@@ -400,6 +413,14 @@ Definition reload_failing (s : state) (l : label) : bool :=
   | LBootReject => true                          (* NewConfig rejected the configuration *)
   | _ => false
   end.
+
+Lemma errold_enters sl validated mux_ok s i s' :
+  kpc s = KFetch -> holder s = Some (ByReload i) ->
+  step sl validated mux_ok s (LFetch CbErrOld) = Some s' ->
+  kpc s' = KUnchanged /\ servers_untouched s s' /\ reload_failing s (LFetch CbErrOld) = false.
+Proof.
+  intros Ek Eh H. destruct (errold_enters_pre sl validated mux_ok s i s' Ek Eh H) as [A B]. auto.
+Qed.
 
 (* every way a Reload gives up the mutex: a failure (state Error), or the final Transition(Running) *)
 Theorem visible_step sl validated mux_ok s l s' i :
